@@ -451,6 +451,24 @@ def run_func(f, env_args):
                         raise Invalid("too many iterations")
                 for r, v in zip(op.results, carried):
                     env[r] = v
+            elif isinstance(op, arith.CmpiOp):
+                a, b = get(op.lhs), get(op.rhs)
+                p = op.predicate.value.data
+                if p not in range(6):   # eq ne slt sle sgt sge (unsigned predicates are not generated)
+                    raise Invalid("unsigned arith.cmpi")
+                env[op.result] = int([a == b, a != b, a < b, a <= b, a > b, a >= b][p])
+            elif isinstance(op, arith.SelectOp):
+                env[op.result] = get(op.lhs) if get(op.cond) else get(op.rhs)
+            elif isinstance(op, arith.SubiOp):
+                env[op.result] = get(op.lhs) - get(op.rhs)
+            elif isinstance(op, arith.IndexCastOp):
+                env[op.result] = get(op.input)
+            elif isinstance(op, scf.IfOp):
+                if op.results:
+                    raise Invalid("scf.if with results")
+                reg = op.true_region if get(op.cond) else op.false_region
+                if reg.blocks:
+                    block(reg.block)
             elif isinstance(op, (scf.YieldOp, func.ReturnOp)):
                 pass
             else:
@@ -709,7 +727,7 @@ def rank_of(ty):
 class GenReuse:
     """loop nests with allocations, memref.dim, subviews and affine.min for reuse-memref-allocs"""
 
-    def __init__(self, r, minfirst_nonconst=False, chain_bias=0.12, multi_bias=0.1, unreg_bias=0.08, idxc_bias=0.2):
+    def __init__(self, r, minfirst_nonconst=False, chain_bias=0.12, multi_bias=0.1, unreg_bias=0.08, idxc_bias=0.2, if_bias=0.0):
         self.r = r
         self.n = 0
         self.tags = 0
@@ -718,6 +736,7 @@ class GenReuse:
         self.multi_bias = multi_bias
         self.unreg_bias = unreg_bias
         self.idxc_bias = idxc_bias
+        self.if_bias = if_bias
 
     def fresh(self, p="v"):
         self.n += 1
@@ -1054,9 +1073,41 @@ class GenReuse:
         inner_at = r.randint(0, n_items) if depth > 0 and r.random() < 0.8 else -1
         for k in range(n_items + 1):
             if k == inner_at:
-                body += self.loop(depth - 1, bind, vs)
+                if r.random() < self.if_bias:   # the inner loop under a condition: its parent op is not the outer scf.for
+                    c = self.fresh("p")
+                    body.append(f"{bind}{c} = arith.cmpi {r.choice(['slt', 'sge', 'ne', 'eq'])}, {iv}, {r.choice(['%c0', '%c1', '%c2'])} : index")
+                    body.append(f"{bind}scf.if {c} {{")
+                    body += self.loop(depth - 1, bind + "  ", vs)
+                    body.append(f"{bind}}}")
+                else:
+                    body += self.loop(depth - 1, bind, vs)
             if k < n_items:
-                self.item(bind, vs, body, depth)
+                if r.random() < self.if_bias:
+                    # operations under a condition inside the loop (find_parent_for_loop looks through the scf.if), sometimes with
+                    # an else branch; a value behind arith.select / arith.index_cast first
+                    c = self.fresh("p")
+                    body.append(f"{bind}{c} = arith.cmpi {r.choice(['slt', 'sge', 'ne', 'eq'])}, {iv}, {r.choice(['%c0', '%c1', '%c2'])} : index")
+                    if r.random() < 0.5:
+                        v = self.fresh()
+                        body.append(f"{bind}{v} = arith.select {c}, {self.pick_idx(vs)}, {self.pick_idx(vs)} : index")
+                        vs.append((v, IDX, "arith"))
+                    inner = list(vs)
+                    body.append(f"{bind}scf.if {c} {{")
+                    # no op of an unregistered dialect directly in an scf.if region: xDSL prints the region without its empty
+                    # scf.yield and, on re-parsing, takes a trailing unregistered op for the terminator (a printer/parser artefact
+                    # of the harness round trip, not of the pass)
+                    keep, self.unreg_bias = self.unreg_bias, 0.0
+                    for _ in range(r.randint(1, 3)):
+                        self.item(bind + "  ", inner, body, depth)
+                    if r.random() < 0.3:
+                        body.append(f"{bind}}} else {{")
+                        inner = list(vs)
+                        for _ in range(r.randint(1, 2)):
+                            self.item(bind + "  ", inner, body, depth)
+                    self.unreg_bias = keep
+                    body.append(f"{bind}}}")
+                else:
+                    self.item(bind, vs, body, depth)
         return [f"{ind}scf.for {iv} = {lb} to {ub} step {st} {{"] + body + [f"{ind}}}"]
 
     def prog(self):
@@ -1139,7 +1190,23 @@ class C17(Prop):
     ]
 
     # -- generators ----------------------------------------------------------------------------------------------
+    PLAIN = ("canon-perfect", "canon-any", "reuse", "reuse-chain", "reuse-multidim", "reuse-unreg", "reuse+canon")
+
     def cases(self, rng, tier):
+        """every third plain case also carries another function (`other`, the previous program of the same pipeline, renamed @g):
+        the oracle then runs the pipeline on the modules [g, f] and [f, g] and requires the rewritten f to be what it is alone
+        (the patterns are instantiated once per pass run: nothing may survive from one function to the next)"""
+        prev = {}
+        k = 0
+        for c in self._gen(rng, tier):
+            if c["kind"] in self.PLAIN:
+                k += 1
+                if k % 3 == 0 and c["pass"] in prev:
+                    c = dict(c, other=prev[c["pass"]])
+                prev[c["pass"]] = c["src"].replace("@f(", "@g(")
+            yield c
+
+    def _gen(self, rng, tier):
         n = 150 if tier == "quick" else 3000
         for i in range(n):
             r = random.Random(rng.getrandbits(48))
@@ -1161,8 +1228,12 @@ class C17(Prop):
                     g = GenReuse(r, multi_bias=0.5)
                     yield {"kind": "reuse-multidim", "pass": REUSE, "src": g.prog(), "envs": g.envs()}
             else:
-                sp = r.choice(["neg", "step0", "iter", "badmin", "odd", "unreg", "unreg", "both", "both"])
-                if sp == "both":
+                sp = r.choice(["neg", "step0", "iter", "badmin", "odd", "unreg", "unreg", "both", "both", "ifs", "ifs"])
+                if sp == "ifs":
+                    # scf.if / arith.select inside the loops (not modelled: executed by the oracle only), one or both passes
+                    g = GenReuse(r, if_bias=0.35, unreg_bias=0.12)
+                    yield {"kind": "reuse-ifs", "pass": r.choice([REUSE, REUSE, REUSE + "," + CANON]), "src": g.prog(), "envs": g.envs()}
+                elif sp == "both":
                     # the two passes one after the other, in the order of the real pipeline (interaction / ordering faults)
                     g = GenReuse(r, idxc_bias=0.35)
                     yield {"kind": "reuse+canon", "pass": REUSE + "," + CANON, "src": g.prog(), "envs": g.envs()}
@@ -1230,6 +1301,21 @@ class C17(Prop):
             out["src_model"] = c0.program()
         except Unsupported as e:
             out["unsupported"] = str(e)
+            # not modelled (scf.if, iter_args, …): no replay through the model, but the clause checks on the real IR of every step
+            # are still evaluated, so that the oracle can attribute a failure to a listed finding
+            for (name, path, before, after, exc) in log:
+                try:
+                    mb = snaxrun.parse(before)
+                    op = mb
+                    for (r_, b_, i_) in path:
+                        op = list(op.regions[r_].blocks[b_].ops)[i_]
+                    ma = snaxrun.parse(after) if after is not None else None
+                    out["steps"].append({"rule": RULES.get(name, name), "pattern": name, "unmodelled": True,
+                                         "flags": step_flags(name, mb, op, ma)})
+                except CaseTimeout:
+                    raise
+                except Exception:
+                    break
             return out
         prev_after = None
         memo = None
@@ -1412,6 +1498,26 @@ class C17(Prop):
                 return [{"what": f"{case['pass']}: trace of side-effecting ops differs at event {k} (of {len(t1)} / {len(t2)}): original "
                                  f"{t1[k] if k < len(t1) else None}, rewritten {t2[k] if k < len(t2) else None} (args={env})",
                          "finding": attribute()}]
+        if "other" in case:
+            from xdsl.dialects import func
+
+            def f_text(module_text):
+                m = snaxrun.parse(module_text)
+                for o in m.walk():
+                    if isinstance(o, func.FuncOp) and o.sym_name.data == "f":
+                        return snaxrun.text(o)
+                return None
+            alone = f_text(impl_out["out"])
+            for order, txt in (("after", case["other"] + case["src"]), ("before", case["src"] + case["other"])):
+                try:
+                    both = snaxrun.run_passes(txt, case["pass"])
+                except CaseTimeout:
+                    raise
+                except Exception:
+                    continue   # the other function alone makes the pipeline raise: no statement about f
+                if f_text(both) != alone:
+                    return [{"what": f"{case['pass']}: the rewritten function @f differs when another function stands {order} it in the "
+                                     f"module (the result for one function depends on the rest of the module)", "finding": None}]
         return []
 
     def nontrivial(self, case, impl_out):
